@@ -512,7 +512,29 @@ def kw_term(fmt, nsm=None):
     return f"(mk_kwargs {copt(fmt, cstr)} {nsmap_term(nsm)})"
 
 
+def replay(ck: Check):
+    """./check C05 --replay FILE: run the recorded operation on the current implementation
+    and report whether the recorded (failing) answer is still what it gives."""
+    rec = json.load(open(ck.replay_file))
+    rp = rec.get("replay") or {}
+    op = rp.get("op")
+    if not isinstance(op, dict) or "op" not in op:
+        print(f"replay: {ck.replay_file} holds no operation ({rec.get('broken') or rec.get('class')}); run the full check")
+        return 2
+    now = run_impl("impl_c05.py", [op])[0]
+    print(f"replay: class={rec.get('class')} op={str(op)[:300]}")
+    print(f"replay: recorded implementation answer: {str(rp.get('impl'))[:300]}")
+    print(f"replay: current  implementation answer: {str(now)[:300]}")
+    if now == rp.get("impl"):
+        print(f"VIOLATION property=C05 replay={ck.replay_file}")
+        return 1
+    print("replay: the recorded answer is no longer reproduced")
+    return 0
+
+
 def run(ck: Check):
+    if getattr(ck, "replay_file", None):
+        return replay(ck)
     ck.level = "proof"
     obligations, discharged, axioms = standard_proof_step(ck, extra_targets=["Model/ConvCorr.vo"])
     r = ck.rng
